@@ -13,7 +13,7 @@ Extraction Language OCaml.
 Extraction "model.ml"
   FilterCase.filter_case FilterCase.monitor_C09 FilterCase.monitor_C18_all
   ReasmRs.run_log ReasmRs.monitor_C16
-  Model.step Model.init Model.wire_type Monitors.monitor_step Monitors.mon_C08_secret Monitors.mon_C13_ltkey Monitors.mon_C13_ltcred Monitors.mon_C06_initial Monitors.mon_C08_retry Monitors.mon_C07_reject Monitors.mall0
+  Model.step Model.init Model.wire_type Monitors.monitor_step Monitors.mon_C08_secret Monitors.mon_C13_ltkey Monitors.mon_C13_ltcred Monitors.mon_C06_initial Monitors.mon_C08_retry Monitors.mon_C07_reject Monitors.mon_C17_undecodable Monitors.mall0
   Wire.decode Wire.dec_ok_basic WireMon.monitor_C18 WireMon.monitor_C18val WireMon.monitor_C03dec WireMon.rfc_verdict
   EncodeMsg.encode_msg EncodeMsg.monitor_C14 EncodeMsg.monitor_C14_tail EncodeMsg.monitor_C14_indep Message.enc_values EncodeMsg.msg_type_of
   ArcHeap.heap0 ArcHeapProofs.outs_s ArcHeapProofs.outs_p ArcHeapProofs.wfb
